@@ -937,6 +937,8 @@ impl Store {
                 let own_node = node.get_or_create_child(key.to_owned()).0;
                 Store::nmerge(own_node, other_node, Some(&key), insertions, &path);
             }
+            // an imported node without value and children must not leave an empty node behind
+            node.trim();
         }
     }
 
